@@ -186,8 +186,24 @@ func w5ReplicaRun(r *verifsim.Run, dir string) {
 			end = stream[next+n].end
 			n++
 		}
+		// a file-based binlog hands the engine whatever it has read so far: the payload may end in
+		// the middle of the next event; the engine must consume the complete events, report
+		// "not enough data" and get that event again (whole) with the next payload
+		partial := false
+		if next+n < len(stream) && !stream[next+n].skip && c.Intn(4, "rep_partial_tail") == 3 {
+			full := w5Event(stream[next+n].s, nil)
+			cut := 1 + c.Intn(len(full)-1, "rep_partial_cut")
+			payload = append(payload, full[:cut]...)
+			partial = true
+			r.Probe("replica_payload_ends_mid_event")
+		}
 		got, err := bl.eng.Apply(payload)
-		if err != nil || got != end {
+		if partial {
+			if got != end || err == nil || !isEOFErr(err) {
+				r.Fail("C17", "replica_apply", "apply-partial", "Apply of %d events + a partial one at %d returned offset %d (want %d), err %v (want a not-enough-data class error)", n, ev.off, got, end, err)
+				return false
+			}
+		} else if err != nil || got != end {
 			r.Fail("C17", "replica_apply", "apply", "Apply of %d events at %d returned offset %d (want %d), err %v", n, ev.off, got, end, err)
 			return false
 		}
